@@ -30,7 +30,8 @@ type TNode struct {
 	Delim    string     `json:"delim,omitempty"`
 	Enc      [][]string `json:"enc,omitempty"`
 	Mutex    bool       `json:"mutex,omitempty"`
-	VPol     int        `json:"vpol,omitempty"` // validity policy: 1 pure accepting closure, 2 pure rejecting closure
+	VPol     int        `json:"vpol,omitempty"`         // validity policy: 1 pure accepting closure, 2 pure rejecting closure
+	NoNest   bool       `json:"nonest_after,omitempty"` // no-nesting switched on AFTER the elements were pushed
 	ReadOnly bool       `json:"ro,omitempty"`
 	Alias    int        `json:"alias,omitempty"` // 0 native, 1 AStack, 2 *AStack, 3 SStack, 4 *SStack / same for conditions
 	Kids     []*TNode   `json:"kids,omitempty"`
@@ -219,6 +220,9 @@ func (n *TNode) BuildStack() stackage.Stack {
 	}
 	if n.Mutex {
 		s.SetMutex()
+	}
+	if n.NoNest {
+		s.SetNoNesting(true)
 	}
 	switch n.VPol {
 	case 1:
@@ -469,10 +473,10 @@ func (g *TreeGen) genStack(r *core.Rng, depth int, root bool) *TNode {
 	if g.Present {
 		n.Paren, n.Fold, n.NoPad, n.LeadOnce = r.Chance(1, 3), r.Chance(1, 4), r.Chance(1, 4), r.Chance(1, 5)
 		if n.Kind != "LIST" && r.Chance(1, 4) {
-			n.Sym = []string{"&", "&&", "∧", "|"}[r.Intn(4)]
+			n.Sym = []string{"&", "&&", "∧", "|", "und", "OrElse", "x"}[r.Intn(7)]
 		}
 		if n.Kind == "LIST" && r.Chance(1, 2) {
-			n.Delim = []string{",", " | ", "、", ";"}[r.Intn(4)]
+			n.Delim = []string{",", " | ", "、", ";", " ", "  ", "\t"}[r.Intn(7)]
 		}
 		if r.Chance(1, 4) {
 			n.Enc = append(n.Enc, [][]string{{`"`}, {"(", ")"}, {"<", ">"}, {"'"}, {"«", "»"}}[r.Intn(5)])
